@@ -27,6 +27,16 @@ XPath API: map:size, map:keys, map:get, map:contains / array:size, array:get; de
 the literal rendering of the specification value) and compared with the store of the
 specification state: an operand that changed is an immutability violation.
 
+Batch (profile "batch"): a function / lookup applied DIRECTLY to a constructor expression whose entries
+depend on the dynamic context (map{'a': $x}?*, [$x, 2]?1, map:get(map{$x: 1}, 1), array:reverse([$x, 2]) ...,
+every lookup form, postfix and unary, square and curly arrays), evaluated once per binding of $x and
+compared item-wise with BatchResult of the spec: (xpath) one expression
+array:join(for $x in (x1,x2,x3) return [E($x)]) - the same constructor token evaluated three times -
+(python) ONE Selector parsed once and selected once per value of the variable $x.
+Exact numeric keys (profiles "keysx", "mergex", cons, deq): 2^53+1 as integer/decimal against the
+xs:double 2^53 it rounds to, xs:decimal 0.1 against 0.1e0, 0.5 in three types: op:same-key compares
+the exact mathematical values; the SameKey table of the spec is cross-checked with python fractions.
+
 The graph of one configuration is a forest (one tree per seed store); trees are replayed in a fork
 pool, with few seeds the pool is filled below the first operation.  A state is entered only along a
 transition that passed in both bindings (prefix hygiene); a failure seen on a store that earlier
@@ -68,6 +78,9 @@ TIERS = {
         ('cons', _c('cons', 1)),                    # constructors: every pair of keys of the alphabet, XQDY0137
         ('keys13-d1', _c('keys13', 1)),             # 13 x 13 key matrix through put/remove/get/contains/find/lookup
         ('keys7-d2', _c('keys7', 2)),               # put/remove then any map function, 7 representative keys
+        ('keysx-d1', _c('keysx', 1)),               # numeric keys whose types hold different exact values (2^53+1, 0.1)
+        ('mergex-d1', _c('mergex', 1)),
+        ('batch', _c('batch', 1)),                  # functions / lookups directly on constructors, once per binding of $x
         ('merge13-d1', _c('merge13', 1)),           # merge of two single-entry maps, 13 x 13 keys x 6 policies
         ('mapvals-d1', _c('mapvals', 1)),           # maps of <= 3 entries, nested values, all map functions
         ('arrays-d1', _c('arrays', 1)),             # arrays of <= 3 members, all array functions, positions -1..4
@@ -87,6 +100,9 @@ TIERS = {
         ('deq-d1', _c('deq', 1)),
         ('mixed-d2-obs', _c('mixed', 2, lite=True, obs_terminal=False)),   # histories go on after observers
         ('keys7-d3', _c('keys7', 3)),
+        ('keysx-d2', _c('keysx', 2)),
+        ('mergex-d1', _c('mergex', 1)),
+        ('batch', _c('batch', 1)),
         ('arrays2-d3', _c('arrays2', 3, lite=True)),
         ('mixed1-d3', _c('mixed1', 3, lite=True)),
     ],
@@ -95,8 +111,8 @@ ALL_ACTIONS = [
     'MapConsA', 'MapPut', 'MapRemove', 'MapGet', 'MapContains', 'MapSize', 'MapKeys', 'MapEntry', 'MapForEachA',
     'MapFind', 'MapMerge', 'ArrConsSquare', 'ArrConsCurly', 'ArrGet', 'ArrPut', 'ArrAppend', 'ArrSubarray2',
     'ArrSubarray3', 'ArrRemove', 'ArrInsertBefore', 'ArrHead', 'ArrTail', 'ArrReverse', 'ArrJoin', 'ArrFlatten',
-    'ArrForEach', 'ArrFilter', 'ArrFold', 'ArrSize', 'Lookup', 'DeepEqual']
-NSEED = {'merge': 2, 'merge13': 2, 'deq': 2, 'mixed': 2, 'mixed1': 2, 'cons': 0}
+    'ArrForEach', 'ArrFilter', 'ArrFold', 'ArrSize', 'Lookup', 'DeepEqual', 'Batch']
+NSEED = {'merge': 2, 'merge13': 2, 'mergex': 2, 'deq': 2, 'mixed': 2, 'mixed1': 2, 'cons': 0, 'batch': 0}
 
 # ---------------------------------------------------------------------------------------
 # abstract values (as parsed from TLC): atom {'a','x'}, map {'m': (entries {'k','v'})}, array {'r': (values)}
@@ -143,6 +159,8 @@ def canon_result(v, bag):
         return tuple(sorted(c, key=repr))
     if bag == 'members' and len(c) == 1 and c[0][0] == 'r':
         return (('r', tuple(sorted(c[0][1], key=repr))),)
+    if bag == 'inner' and len(c) == 1 and c[0][0] == 'r':
+        return (('r', tuple(tuple(sorted(m, key=repr)) for m in c[0][1])),)
     return c
 
 
@@ -151,6 +169,8 @@ def canon_result(v, bag):
 
 def atom_lit(a) -> str:
     t, x = a['a'], a['x']
+    if t == 'var':
+        return '$' + x          # the hole of a constructor template (Batch)
     if t == 'integer':
         return x
     if t == 'decimal':
@@ -199,6 +219,7 @@ def env():
             pass
         e = Env()
         e.iter_select = elementpath.iter_select
+        e.Selector = elementpath.Selector
         e.Parser = XPath31Parser
         e.parser = XPath31Parser()
         e.XPathMap, e.XPathArray = XPathMap, XPathArray
@@ -255,13 +276,16 @@ def value_py(v):
 # projection: real -> abstract (dumb, through the public Python API)
 
 def num_lex(f) -> str:
+    """canonical decimal numeral of a number (the shortest one that reads back as the same value)"""
+    if isinstance(f, Decimal):
+        return format(f.normalize(), 'f')
     if math.isnan(f):
         return 'NaN'
     if math.isinf(f):
         return 'INF' if f > 0 else '-INF'
     if f == int(f):
         return str(int(f))
-    return repr(f)
+    return repr(float(f))
 
 
 def proj_atom(x):
@@ -387,12 +411,16 @@ FOLDS = {
 class Binder:
     """renders the parameters of one action either as literals or as variables bound to Python values"""
 
-    def __init__(self, binding: str, store: list):
+    def __init__(self, binding: str, store: list, operand_text: str | None = None, lookup_form: str | None = None):
         self.binding = binding
         self.vars = {f'h{i + 1}': v for i, v in enumerate(store) if v is not _NOVALUE}
         self.n = 0
+        self.operand_text = operand_text      # Batch: handle 0 is a constructor expression, not a variable
+        self.lookup_form = lookup_form or ('unary' if binding == 'python' else 'postfix')
 
     def h(self, n) -> str:
+        if n == 0 and self.operand_text is not None:
+            return self.operand_text
         return f'$h{n}'
 
     def hs(self, ns) -> str:
@@ -502,7 +530,7 @@ def expression(b: Binder, action: str, args: tuple) -> str:
         else:
             spec = '(' + b.atom(ks[1]) + ')'
         # postfix lookup / unary lookup with the handle as context item
-        return f'{b.h(h)} ! ?{spec}' if py else f'{b.h(h)}?{spec}'
+        return f'{b.h(h)} ! ?{spec}' if b.lookup_form == 'unary' else f'{b.h(h)}?{spec}'
     if action == 'DeepEqual':
         return f'deep-equal({b.h(args[0])}, {b.h(args[1])})'
     raise tla.MachineryError(f'no rendering for action {action}')
@@ -545,7 +573,7 @@ def operands(action: str, args: tuple) -> list[int]:
         return sorted(set(args[0]))
     if action == 'DeepEqual':
         return sorted({args[0], args[1]})
-    if action in ('MapEntry', 'MapConsA', 'ArrConsSquare', 'ArrConsCurly'):
+    if action in ('MapEntry', 'MapConsA', 'ArrConsSquare', 'ArrConsCurly', 'Batch'):
         return []
     return [args[0]]
 
@@ -717,6 +745,14 @@ def key_class(k1, k2) -> str:
 def features(action, args, src_store, expected, binding, check, outcome) -> dict:
     f = dict(action=action, binding=binding, check=check, outcome=outcome,
              expected=('err:' + expected[0]['err']) if 'err' in expected[0] else 'value')
+    if action == 'Batch':
+        act, tmpl, params, xs = args
+        f.update(act=act, constructor='map' if is_map(tmpl) else 'array',
+                 hole_in_key=is_map(tmpl) and any(en['k']['a'] == 'var' for en in tmpl['m']),
+                 repeated_binding=len(set(map(repr, xs))) < len(xs))
+        if act == 'Lookup':
+            f['lookup'] = params[0][0]
+        return f
     # keys taking part: parameter keys and the keys of the operand maps
     pkeys = []
     if action in ('MapPut', 'MapGet', 'MapContains', 'MapFind'):
@@ -855,10 +891,77 @@ def build_seed(result, binding):
     return o
 
 
+def curly_lit(arr) -> str | None:
+    """array{ i1, i2 } spelling of an array whose members are all single items"""
+    if all(len(m) == 1 for m in arr['r']):
+        return 'array{' + ', '.join(item_lit(m[0]) for m in arr['r']) + '}'
+    return None
+
+
+def batch_alternatives(binding, args):
+    """Batch(act, template, params, xs): the expression texts E($x) = act applied DIRECTLY to the constructor
+    written with the variable $x (every spelling: postfix and unary lookup, square and curly array)"""
+    act, tmpl, params, xs = args
+    cons = [item_lit(tmpl)]
+    if is_arr(tmpl) and curly_lit(tmpl):
+        cons.append(curly_lit(tmpl))
+    out = []
+    for c in cons:
+        for form in (('postfix', 'unary') if act == 'Lookup' else (None,)):
+            b = Binder(binding, [], operand_text=c, lookup_form=form)
+            out.append((expression(b, act, (0,) + tuple(params)), b.vars))
+    return out
+
+
+def apply_batch(args, binding):
+    """xpath : ONE expression, the constructor token is evaluated once per item of a for clause:
+                 array:join(for $x in (x1, x2, x3) return [ E($x) ])
+       python: ONE Selector (parsed once), selected once per binding of the variable $x"""
+    e = env()
+    xs = args[3]
+    res = []
+    for text, pvars in batch_alternatives(binding, args):
+        if binding == 'xpath':
+            full = f"array:join(for $x in ({', '.join(atom_lit(x) for x in xs)}) return [{text}])"
+            res.append((full, xp(full, pvars)))
+            continue
+        full = 'map{0: (' + text + ')}'
+        members, out = [], None
+        try:
+            sel = e.Selector(full, parser=e.Parser)
+        except e.Error as ex:
+            out = ('err', (getattr(ex, 'code', None) or '').split(':')[-1])
+        except Exception as ex:  # noqa
+            out = ('escaped', type(ex).__name__)
+        for x in xs:
+            if out is not None:
+                break
+            try:
+                r = sel.select(None, item=1, variables=dict(pvars, x=atom_py(x)))
+                r = r[0] if isinstance(r, list) and len(r) == 1 else r
+                if not isinstance(r, e.XPathMap):
+                    out = ('escaped', 'wrapper-map-not-returned')
+                else:
+                    members.append(list(r.values())[0])
+            except e.Error as ex:
+                out = ('err', (getattr(ex, 'code', None) or '').split(':')[-1])
+            except RecursionError:
+                out = ('escaped', 'RecursionError')
+            except Exception as ex:  # noqa
+                out = ('escaped', type(ex).__name__)
+        if out is None:
+            out = ('val', e.XPathArray(e.parser, members))
+        res.append((f'Selector({full!r}) selected with $x = ' + ', '.join(atom_lit(x) for x in xs), out))
+    return res
+
+
 def apply_action(store, action, args, binding):
+    """all spellings of one action: [(text, outcome)]; the first one is the reference"""
+    if action == 'Batch':
+        return apply_batch(args, binding)
     b = Binder(binding, store)
     text = expression(b, action, args)
-    return text, xp(text, b.vars)
+    return [(text, xp(text, b.vars))]
 
 
 def build_store(seeds, history, binding):
@@ -870,7 +973,7 @@ def build_store(seeds, history, binding):
             return None
         store.append(to_real(o))
     for action, args, expected in history:
-        _, o = apply_action(store, action, args, binding)
+        _, o = apply_action(store, action, args, binding)[0]
         store.append(to_real(o) if o[0] == 'val' else _NOVALUE)
     return store
 
@@ -886,12 +989,15 @@ def check_step(src_store_abs, dsts_abs, seeds, history, action, args, binding, s
         fails.append(Fail(features(action, args, src_store_abs, expected, binding, check, outcome),
                           dict(case, check=check), exp, obs, what))
 
-    text, obs = apply_action(store, action, args, binding)
+    alts = apply_action(store, action, args, binding)
+    text, obs = alts[0]
     mm = result_mismatch(expected, obs)
-    shown = proj_value(obs[1]) if obs[0] == 'val' else obs
-    if mm is not None:
-        fail('result', mm, expected, shown, text)
-    n_eval = 1
+    for n, (t_alt, o_alt) in enumerate(alts):
+        m_alt = mm if n == 0 else result_mismatch(expected, o_alt)
+        if m_alt is not None:
+            fail('result', m_alt, expected, proj_value(o_alt[1]) if o_alt[0] == 'val' else o_alt, t_alt)
+            mm = mm or m_alt
+    n_eval = len(alts) * (len(args[3]) if action == 'Batch' and binding == 'python' else 1)
     # the same action through the Python API of the value
     if binding == 'python':
         fn = python_call(store, action, args)
@@ -1123,21 +1229,47 @@ def _worker(chunk):
 
 # ---------------------------------------------------------------------------------------
 
+def exact_value(t: str, x: str):
+    """second oracle (python fractions) for the exact mathematical value of a numeric atom"""
+    import struct
+    from fractions import Fraction
+    if x in ('NaN', 'INF', '-INF'):
+        return x
+    if t in ('integer', 'decimal'):
+        return Fraction(x)
+    f = float(x)
+    if t == 'float':
+        f = struct.unpack('f', struct.pack('f', f))[0]
+    return Fraction(f)
+
+
 def load_samekey_table(chk, wd):
-    """op:same-key as decided by the specification, printed once by TLC (used for feature classes only)"""
+    """op:same-key as decided by the specification, printed once by TLC (used for the feature classes), and
+    cross-checked on the numeric keys against python fractions (disagreement = machinery failure)"""
     gen = os.path.join(wd, 'gen')
     os.makedirs(gen, exist_ok=True)
     with open(os.path.join(gen, 'MapArrayTables.tla'), 'w') as f:
         f.write('---- MODULE MapArrayTables ----\nEXTENDS MapArray\n'
-                'ASSUME \\A k1, k2 \\in KeysExt : SameKey(k1, k2) => PrintT(<<"samekey", <<k1.a, k1.x, k2.a, k2.x>>>>)\n'
-                'ASSUME PrintT(<<"nkeys", Cardinality(KeysExt)>>)\n====\n')
+                'AllKeys == KeysExt \\cup KeysX\n'
+                'ASSUME \\A k1, k2 \\in AllKeys : SameKey(k1, k2) => PrintT(<<"samekey", <<k1.a, k1.x, k2.a, k2.x>>>>)\n'
+                'ASSUME \\A k \\in AllKeys : PrintT(<<"key", <<k.a, k.x>>>>)\n====\n')
     cfg = tla.cfg_text(dict(Profile='selftest', Depth=0, ObsTerminal=True, InPlace=False, Lite=False))
     r = tla.require_ok(tla.run_tlc('MapArrayTables', cfg, wd, workers=1, extra_modules_dir=gen), 'MapArrayTables')
     for t in tla.printed_values(r.output, 'samekey'):
         _SAMEKEY.add(tuple(t))
-    n = next(tla.printed_values(r.output, 'nkeys'))
-    if len(_SAMEKEY) < n:
-        raise tla.MachineryError('SameKey table is not reflexive')
+    keys = [tuple(t) for t in tla.printed_values(r.output, 'key')]
+    if len(keys) < 20 or any((a, x, a, x) not in _SAMEKEY for a, x in keys):
+        raise tla.MachineryError('SameKey table is not reflexive / key alphabet not printed')
+    bad = []
+    for a1, x1 in keys:
+        for a2, x2 in keys:
+            if a1 in NUMERIC and a2 in NUMERIC:
+                want = exact_value(a1, x1) == exact_value(a2, x2)
+                if want != ((a1, x1, a2, x2) in _SAMEKEY):
+                    bad.append((a1, x1, a2, x2, want))
+    if bad:
+        raise tla.MachineryError(f'spec SameKey disagrees with exact python fractions: {bad[:4]}')
+    chk.coverage['samekey_pairs_cross_checked'] = sum(1 for a, _ in keys if a in NUMERIC) ** 2
 
 
 def self_test(chk, wd):
